@@ -614,6 +614,13 @@ func genPeerScript(t *rapid.T, withFailure bool) peerScript {
 			sc.Calls[si].Dup = false
 			sc.Stalled = sc.Calls[si].Kind
 			sc.FailAt = n
+			// in half of the scripts the peer falls silent altogether after some
+			// replies: the stalled call runs into its (short) deadline while other
+			// requests, whose own deadlines are far away, are still pending - they
+			// must be failed promptly as well
+			if n > 1 && rapid.Bool().Draw(t, "silent") {
+				sc.FailAt = rapid.IntRange(0, n-1).Draw(t, "silentafter")
+			}
 			// calls of the stalled kind share its short deadline: keep only the stalled one of that kind
 			for i := range sc.Calls {
 				if i != si && sc.Calls[i].Kind == sc.Stalled {
@@ -659,6 +666,9 @@ func c15RunScripts(t *testing.T, test string, withFailure bool) {
 		labels := []string{}
 		if sc.Failure != "" {
 			labels = append(labels, "failure:"+sc.Failure)
+			if sc.Failure == "stall" && sc.FailAt < concurrent {
+				labels = append(labels, "stall:other-requests-pending")
+			}
 		}
 		if len(sc.Bogus) > 0 {
 			labels = append(labels, "unknown-seq-injected")
